@@ -210,19 +210,52 @@ def nested_run(make_md, doc_a, doc_b, k, granularity, codes, limit=10.0):
     return a, state["b"], state["n"], state["where"]
 
 
-def first_occurrences(make_md, doc, codes):
+def global_touching_codes(codes):
+    """the library functions that rebind a module-level variable at run time, or read one that some library function rebinds:
+    state shared by every parse in the process, so EVERY execution of their lines is a place where another parse can get in
+    between a read and the matching write (not only the first execution)"""
+    import dis
+    rebound = {}
+    for c in codes:
+        for ins in dis.get_instructions(c):
+            if ins.opname in ("STORE_GLOBAL", "DELETE_GLOBAL"):
+                rebound.setdefault(c.co_filename, set()).add(ins.argval)
+    out = set()
+    mods = {getattr(m, "__file__", None): m for m in list(sys.modules.values()) if m is not None}
+    mutators = {"append", "add", "clear", "pop", "update", "setdefault", "insert", "extend", "remove", "discard", "popitem", "appendleft"}
+    for c in codes:
+        names = rebound.get(c.co_filename, ())
+        mod = mods.get(c.co_filename)
+        ins_list = list(dis.get_instructions(c))
+        writes = any(i.opname in ("STORE_SUBSCR", "DELETE_SUBSCR") or (i.opname in ("LOAD_ATTR", "LOAD_METHOD") and i.argval in mutators)
+                     for i in ins_list)
+        for ins in ins_list:
+            if ins.opname in ("STORE_GLOBAL", "DELETE_GLOBAL") or (ins.opname in ("LOAD_GLOBAL", "LOAD_NAME") and ins.argval in names):
+                out.add(c)
+                break
+            # a module-level container (dict / list / set memo) that this function may write into
+            if writes and ins.opname in ("LOAD_GLOBAL", "LOAD_NAME") and mod is not None \
+                    and isinstance(getattr(mod, str(ins.argval), None), (dict, list, set, bytearray)):
+                out.add(c)
+                break
+    return out
+
+
+def first_occurrences(make_md, doc, codes, every_in=(), per_line=25):
     """event indices (LINE granularity, as the Controller counts them) at which each source line of the library is
     executed for the first time during the first use of a fresh instance: pre-empting there lands inside every
-    lazy initialisation exactly when it happens"""
+    lazy initialisation exactly when it happens; for the code objects in [every_in], every execution of a line (up to
+    [per_line] of them)"""
     md = make_md()
-    seen, firsts, n = set(), [], [0]
+    seen, firsts, n = {}, [], [0]
 
     def cb(code, line):
         n[0] += 1
         key = (code, line)
-        if key not in seen:
-            seen.add(key)
+        c = seen.get(key, 0)
+        if c == 0 or (code in every_in and c < per_line):
             firsts.append(n[0])
+        seen[key] = c + 1
         return None
     mon.use_tool_id(TOOL, "verif-c13")
     try:
@@ -285,6 +318,15 @@ DOC_D = "Write `` in prose, then run `make` and `make test` to check [x](/u 't1'
 DOC_E = "A stray `` and a lone ` here ![i](/s \"t2\") **b** [[[m]]](/w 'tw').\n"
 
 
+# a pair whose two documents both go through every place where a per-instance or per-process object is read and written while
+# rendering: fences with (different) info strings, reference definitions and uses with different labels and one label that both
+# define differently, images, titles, autolinks, entities, typographic input
+DOC_M = ("[alpha]: /a-target\n\nsee [alpha] and ![img][alpha] -- \"q\"\n\n```python\nprint(1)\n```\n\n~~~ruby x\ny\n~~~\n\n"
+         "<http://m.example/x> &amp; [t](/m 'tm')\n")
+DOC_N = ("[alpha]: /b-alpha\n[beta]: /b-target 'T'\n\nsee [beta] and [alpha] ... 'r'\n\n```ruby\nputs 1\n```\n\n"
+         "<mailto:n@example.org> &lt; ![j](/n \"tn\")\n")
+
+
 def solo(make_md, doc):
     try:
         return ["ok", make_md().render(doc)]
@@ -335,6 +377,7 @@ def run(ctx) -> int:
 
     ruler_codes = lib_code_objects("ruler.py")
     all_codes = lib_code_objects()
+    global_codes = global_touching_codes(all_codes)
 
     def check(a, b, sa, sb, desc, where):
         nonlocal known_hits
@@ -395,6 +438,34 @@ def run(ctx) -> int:
                     n_sched += 1
                     check(res[0], res[1], sa, sb, {"mode": "two threads, line boundary anywhere in markdown_it/mdurl",
                                                    "instance": mname, "k": k, "doc_a": da, "doc_b": db}, c.where)
+                    if violations:
+                        break
+                if violations:
+                    break
+            if violations:
+                break
+    # (i-c) the construct-rich pair, both ways round: B as a second thread AND B nested, at the first execution of EVERY source
+    # line of the library during A (a window between reading and writing an object shared by the instance or the process opens
+    # the first time its lines run: scratch objects on the renderer, memo variables of a module, lazily built tables)
+    if not violations:
+        for mname, mk in makers[: 2 if tier == "quick" else 3]:
+            for da, db in ((DOC_M, DOC_N), (DOC_N, DOC_M)):
+                sa, sb = solo(mk, da), solo(mk, db)
+                n = count_events(mk, da, "line", all_codes)
+                firsts = [k for k in first_occurrences(mk, da, all_codes, every_in=global_codes) if k <= n]
+                for k in firsts:
+                    md = mk()
+                    c = Controller([lambda: md.render(da), lambda: md.render(db)], [(0, k), (1, 1 << 50)], "line", all_codes)
+                    res = c.run()
+                    n_sched += 1
+                    check(res[0], res[1], sa, sb, {"mode": "two threads, first execution of a source line anywhere in markdown_it/mdurl",
+                                                   "instance": mname, "k": k, "doc_a": da, "doc_b": db}, c.where)
+                    if violations:
+                        break
+                    a, b, _, where = nested_run(mk, da, db, k, "line", all_codes)
+                    n_sched += 1
+                    check(a, b, sa, sb, {"mode": "nested, first execution of a source line anywhere in markdown_it/mdurl",
+                                         "instance": mname, "k": k, "doc_a": da, "doc_b": db}, where)
                     if violations:
                         break
                 if violations:
@@ -550,8 +621,22 @@ def replay(body) -> int:
     ruler_codes = lib_code_objects("ruler.py")
     mk = mk_reconfigured if body.get("instance") == "reconfigured" else (
         mk_fresh("js-default", {"typographer": True}) if "js-default" in str(body.get("instance")) else mk_fresh())
-    if "k" in body and body.get("mode", "").startswith("nested"):
-        a, b, _, where = nested_run(mk, body["doc_a"], body["doc_b"], body["k"], "instruction", ruler_codes)
+    MarkdownIt().render("[a](http://x.y/) *b*")
+    mode = body.get("mode", "")
+    if "k" in body and mode.startswith("two threads") and "doc_a" in body:
+        all_codes = lib_code_objects()
+        da, db = body["doc_a"], body["doc_b"]
+        sa, sb = solo(mk, da), solo(mk, db)
+        md = mk()
+        c = Controller([lambda: md.render(da), lambda: md.render(db)], [(0, int(body["k"])), (1, 1 << 50)], "line", all_codes)
+        res = c.run()
+        bad = res[0] != sa or res[1] != sb
+        print("pre-empted at", c.where, "-> A", "differs" if res[0] != sa else "ok", ", B", "differs" if res[1] != sb else "ok")
+        return 1 if bad else 0
+    if "k" in body and mode.startswith("nested"):
+        line_mode = "source line" in mode
+        a, b, _, where = nested_run(mk, body["doc_a"], body["doc_b"], int(body["k"]), "line" if line_mode else "instruction",
+                                    lib_code_objects() if line_mode else ruler_codes)
         sa, sb = solo(mk, body["doc_a"]), solo(mk, body["doc_b"])
         bad = a != sa or b != sb
         print("pre-empted at", where, "-> A", "differs" if a != sa else "ok", ", B", "differs" if b != sb else "ok")
